@@ -96,10 +96,21 @@ class World:
             f.write(self.ca.pem)
         self.ca_data = self.ca.pem.decode()
         self.certs = {}
+        # a third CA plays the operating system's default trust store: OpenSSL's default verify paths are pointed
+        # at it (read when load_default_certs()/set_default_verify_paths() is called), so "trusted because it is in
+        # the system store" and "trusted because the caller configured it" can be told apart
+        self.sys_ca = _CA("mc system-store CA")
+        self.sys_ca_file = os.path.join(self.tmp, "system-store.pem")
+        with open(self.sys_ca_file, "wb") as f:
+            f.write(self.sys_ca.pem)
+        empty = os.path.join(self.tmp, "empty-certs-dir")
+        os.makedirs(empty, exist_ok=True)
+        os.environ["SSL_CERT_FILE"] = self.sys_ca_file
+        os.environ["SSL_CERT_DIR"] = empty
 
     def cert(self, cid, dns=(), ips=(), cn=None, trusted=True, san=True):
         if cid not in self.certs:
-            ca = self.ca if trusted else self.bad_ca
+            ca = self.sys_ca if trusted == "system" else (self.ca if trusted else self.bad_ca)
             cp, kp = _mint(ca.cert, ca.key, cid, dns, ips, cn, san)
             self.certs[cid] = Cert(cid, cp, kp, dns if san else (), ips if san else (), cn, trusted)
         return self.certs[cid]
